@@ -567,3 +567,53 @@ pub mod verif_hooks_psdcone {
         x
     }
 }
+
+// ---------------------------------------------------------------------------
+// verification hooks (feature `verif-hooks`), second group: read access to the
+// LAPACK results that `update_scaling` consumes, to `RRᵀ`, and a call-through
+// for the private `skron`.  No behaviour is added.
+// ---------------------------------------------------------------------------
+#[cfg(feature = "verif-hooks")]
+pub mod verif_hooks_psdcone_scaling {
+    use super::*;
+
+    /// column-major n×n data of the Cholesky factor of `S` (lower triangle, zeros above)
+    pub fn chol1_L<T: FloatT>(k: &PSDTriangleCone<T>) -> &[T] {
+        k.data.chol1.L.data()
+    }
+    /// column-major n×n data of the Cholesky factor of `Z`
+    pub fn chol2_L<T: FloatT>(k: &PSDTriangleCone<T>) -> &[T] {
+        k.data.chol2.L.data()
+    }
+    /// column-major n×n data of the left singular vectors `U` of `L2ᵀL1`
+    pub fn svd_U<T: FloatT>(k: &PSDTriangleCone<T>) -> &[T] {
+        k.data.SVD.U.data()
+    }
+    /// column-major n×n data of the transposed right singular vectors `Vt`
+    pub fn svd_Vt<T: FloatT>(k: &PSDTriangleCone<T>) -> &[T] {
+        k.data.SVD.Vt.data()
+    }
+    /// singular values
+    pub fn svd_s<T: FloatT>(k: &PSDTriangleCone<T>) -> &[T] {
+        &k.data.SVD.s
+    }
+    /// column-major data of `workmat1`; directly after a successful `update_scaling`
+    /// this is `RRᵀ` (upper triangle, zeros below)
+    pub fn workmat1<T: FloatT>(k: &PSDTriangleCone<T>) -> &[T] {
+        k.data.workmat1.data()
+    }
+    /// column-major Bm×Bm data of `Hs` (upper triangle as written by `skron`)
+    pub fn Hs<T: FloatT>(k: &PSDTriangleCone<T>) -> &[T] {
+        k.data.Hs.data()
+    }
+    /// `skron(out, A.sym())` for the n×n matrix with the given column-major data (which must
+    /// be upper triangular); returns the column-major Bm×Bm data of `out` (zero-initialised)
+    pub fn skron_dense<T: FloatT>(n: usize, a: &[T]) -> Vec<T> {
+        let mut A = Matrix::<T>::zeros((n, n));
+        A.data_mut().copy_from_slice(a);
+        let bm = triangular_number(n);
+        let mut out = Matrix::<T>::zeros((bm, bm));
+        skron(&mut out, &A.sym());
+        out.data().to_vec()
+    }
+}
